@@ -12,7 +12,7 @@ def hx_path(profile):
 
 
 CHANNEL_OF = [
-    ("snap archcap", "cap"),
+    ("snap archcap", "cap"), ("hinfo ", "hinfo"),
     ("ret ", "ret"), ("panic ", "ret"), ("ub ", "ret"), ("assert ", "ret"), ("bad-op", "ret"),
     ("id ", "ids"), ("t ", "trace"), ("ed", "evdrops"), ("cd", "cdrops"), ("st ", "store"), ("reg ", "reg"),
     ("snap ", "arch"), ("pend ", "pend"), ("inv ", "inv"), ("ca ", "accept"), ("exit ", "exit"),
@@ -130,9 +130,11 @@ def compare(impl, model, channels, canon=None):
                 found = True
                 break
             (op, il), (_, ml) = iops[i], mops[i]
+            incidental = False
             for ch in channels + ["exit"]:
                 a = [base_norm(l) for l in il if channel(l) == ch]
                 b = [base_norm(l) for l in ml if channel(l) == ch]
+                raw_differs = a != b
                 if canon:
                     a = canon(ch, a, op)
                     b = canon(ch, b, op)
@@ -140,6 +142,12 @@ def compare(impl, model, channels, canon=None):
                     diffs.append((hid, i, op, ch, a, b))
                     found = True
                     break
+                if canon and raw_differs and op.startswith("rmc "):
+                    incidental = True
             if found:
+                break
+            if incidental:
+                # the two sides went through a component removal in a different (unspecified) order: serials and ordinals
+                # handed out from here on are permuted, so nothing later in this history can confirm a violation
                 break
     return diffs
